@@ -1,8 +1,9 @@
 use crate::{
     constants::{
         LmsTreeIdentifier, D_TOPSEED, HSS_COMPRESSED_USED_LEAFS_SIZE, ILEN, MAX_ALLOWED_HSS_LEVELS,
-        MAX_HASH_SIZE, MAX_SEED_LEN, REF_IMPL_MAX_PRIVATE_KEY_SIZE, SEED_CHILD_SEED,
-        SEED_SIGNATURE_RANDOMIZER_SEED, TOPSEED_D, TOPSEED_LEN, TOPSEED_SEED, TOPSEED_WHICH,
+        MAX_HASH_SIZE, MAX_SEED_LEN, REF_IMPL_MAX_ALLOWED_HSS_LEVELS,
+        REF_IMPL_MAX_PRIVATE_KEY_SIZE, SEED_CHILD_SEED, SEED_SIGNATURE_RANDOMIZER_SEED, TOPSEED_D,
+        TOPSEED_LEN, TOPSEED_SEED, TOPSEED_WHICH,
     },
     hasher::HashChain,
     hss::{definitions::HssPrivateKey, seed_derive::SeedDerive},
@@ -129,7 +130,8 @@ impl<H: HashChain> ReferenceImplPrivateKey<H> {
         result.compressed_used_leafs_indexes =
             CompressedUsedLeafsIndexes::from_slice(compressed_used_leafs_indexes);
 
-        let compressed_parameter = read_and_advance(data, MAX_ALLOWED_HSS_LEVELS, &mut index);
+        let compressed_parameter =
+            read_and_advance(data, REF_IMPL_MAX_ALLOWED_HSS_LEVELS, &mut index);
         result.compressed_parameter = CompressedParameterSet::from_slice(compressed_parameter)?;
 
         let seed_len = result.seed.len();
@@ -217,17 +219,17 @@ pub fn generate_signature_randomizer<H: HashChain>(
 const PARAM_SET_END: u8 = 0xff; // Marker for end of parameter set
 
 #[derive(Clone, PartialEq, Eq, Zeroize, ZeroizeOnDrop)]
-pub struct CompressedParameterSet([u8; MAX_ALLOWED_HSS_LEVELS]);
+pub struct CompressedParameterSet([u8; REF_IMPL_MAX_ALLOWED_HSS_LEVELS]); // Same layout for every build configuration
 
 impl Default for CompressedParameterSet {
     fn default() -> Self {
-        Self([PARAM_SET_END; MAX_ALLOWED_HSS_LEVELS])
+        Self([PARAM_SET_END; REF_IMPL_MAX_ALLOWED_HSS_LEVELS])
     }
 }
 
 impl CompressedParameterSet {
     pub fn from_slice(data: &[u8]) -> Result<Self, ()> {
-        if data.len() != MAX_ALLOWED_HSS_LEVELS {
+        if data.len() != REF_IMPL_MAX_ALLOWED_HSS_LEVELS {
             return Err(());
         }
 
@@ -262,11 +264,15 @@ impl CompressedParameterSet {
     ) -> Result<ArrayVec<[HssParameter<H>; MAX_ALLOWED_HSS_LEVELS]>, ()> {
         let mut result = ArrayVec::new();
 
-        for level in 0..MAX_ALLOWED_HSS_LEVELS {
+        for level in 0..REF_IMPL_MAX_ALLOWED_HSS_LEVELS {
             let parameter = self.0[level];
 
             if parameter == PARAM_SET_END {
                 break;
+            }
+
+            if level >= MAX_ALLOWED_HSS_LEVELS {
+                return Err(());
             }
 
             let lms_type = parameter >> 4;
